@@ -7,8 +7,14 @@ package nbreal
 // goroutines calls os.Exit(1) when a service is stopped before it got to serve.  So the handlers do
 // not run in the process that drives the check: New() hands out a proxy that forwards the script
 // lines of a case to a child process (this same binary, started with NBREAL_WORKER=1, answering on
-// fd 3), children are replaced after a fixed number of cases, and a child that dies is replaced and
-// the case replayed from its first line.
+// fd 3), children are replaced after a fixed number of cases.
+//
+// A child that dies while it serves a line is an observation, not an accident: a panic in a
+// goroutine the handler spawned cannot be recovered and takes the server process down, which is
+// exactly what C12 forbids.  The line is run again in fresh children — alone (after the nb.env
+// line), then after the whole history of the case — and if the child dies again the answer is
+// `panic process-died`, which the C12 monitor reports with the request as replay.  Half of the
+// children run with GOMAXPROCS=1, which makes goroutine interleavings deterministic.
 
 import (
 	"bufio"
@@ -16,8 +22,11 @@ import (
 	"io"
 	"os"
 	"os/exec"
+	"runtime"
 	"strings"
 	"sync"
+	"sync/atomic"
+	"time"
 )
 
 const (
@@ -57,12 +66,30 @@ func runWorker() {
 			ans = "closed"
 		} else {
 			ans = strings.ReplaceAll(r.Exec(line), "\n", "\\n")
+			settle(line)
 		}
 		if _, err := w.WriteString(ans + "\n"); err != nil {
 			return
 		}
 		if err := w.Flush(); err != nil {
 			return
+		}
+	}
+}
+
+// settle lets goroutines a handler left behind run before the answer is given, so that a panic
+// in one of them is attributed to the request that spawned it.
+func settle(line string) {
+	if !(strings.HasPrefix(line, "nb.get") || strings.HasPrefix(line, "nb.sub") || strings.HasPrefix(line, "nb.set")) {
+		return
+	}
+	for i := 0; i < 20; i++ {
+		runtime.Gosched()
+	}
+	if strings.HasPrefix(line, "nb.get") && strings.Contains(line, " x=R:111:1.") {
+		time.Sleep(2 * time.Millisecond) // SYNCHRONOUS Get: one goroutine per target
+		for i := 0; i < 20; i++ {
+			runtime.Gosched()
 		}
 	}
 }
@@ -75,7 +102,13 @@ type child struct {
 	cases int
 }
 
+var spawned uint64
+
 func spawn() (*child, error) {
+	procs := "GOMAXPROCS=4"
+	if atomic.AddUint64(&spawned, 1)%2 == 0 {
+		procs = "GOMAXPROCS=1"
+	}
 	exe, err := os.Executable()
 	if err != nil {
 		return nil, err
@@ -85,7 +118,7 @@ func spawn() (*child, error) {
 		return nil, err
 	}
 	cmd := exec.Command(exe)
-	cmd.Env = append(os.Environ(), workerEnv+"=1", "GOMAXPROCS=4", "GOMEMLIMIT=1GiB")
+	cmd.Env = append(os.Environ(), workerEnv+"=1", procs, "GOMEMLIMIT=1GiB")
 	cmd.ExtraFiles = []*os.File{pw}
 	cmd.Stdout = nil
 	cmd.Stderr = nil
@@ -182,28 +215,53 @@ type Remote struct {
 // New returns the executor of one case.
 func New() *Remote { return &Remote{} }
 
-// Exec forwards one line; a dead child is replaced and the case replayed.
+// attach gets a child and brings it to the state of the case so far.
+func (r *Remote) attach(history []string) error {
+	c, err := pool.acquire()
+	if err != nil {
+		return err
+	}
+	for _, h := range history {
+		if _, err := c.ask(h); err != nil {
+			pool.release(c, false)
+			return err
+		}
+	}
+	r.c = c
+	return nil
+}
+
+// diesOn runs line after prefix in a fresh child and says whether the child died on it.
+func diesOn(prefix []string, line string) bool {
+	c, err := pool.acquire()
+	if err != nil {
+		return false
+	}
+	for _, h := range prefix {
+		if _, err := c.ask(h); err != nil {
+			pool.release(c, false)
+			return false // died earlier: not this line's doing
+		}
+	}
+	_, err = c.ask(line)
+	if err != nil {
+		pool.release(c, false)
+		return true
+	}
+	_, err = c.ask("@close")
+	pool.release(c, err == nil)
+	return false
+}
+
+// Exec forwards one line.  If the child dies on it, the death is confirmed in fresh children and
+// reported as the answer `panic process-died`.
 func (r *Remote) Exec(line string) string {
 	if strings.ContainsAny(line, "\n\r") {
 		return "bad-op"
 	}
 	for attempt := 0; attempt < 3; attempt++ {
 		if r.c == nil {
-			c, err := pool.acquire()
-			if err != nil {
-				return "worker-error " + strings.ReplaceAll(err.Error(), " ", "_")
-			}
-			r.c = c
-			ok := true
-			for _, h := range r.history {
-				if _, err := r.c.ask(h); err != nil {
-					ok = false
-					break
-				}
-			}
-			if !ok {
-				pool.release(r.c, false)
-				r.c = nil
+			if err := r.attach(r.history); err != nil {
 				continue
 			}
 		}
@@ -214,6 +272,18 @@ func (r *Remote) Exec(line string) string {
 		}
 		pool.release(r.c, false)
 		r.c = nil
+		// the child died serving this line: alone, then with the history, a few times (a race
+		// between goroutines need not show every time)
+		var alone []string
+		if len(r.history) > 0 && strings.HasPrefix(r.history[0], "nb.env") {
+			alone = r.history[:1]
+		}
+		for try := 0; try < 4; try++ {
+			if diesOn(alone, line) || diesOn(r.history, line) {
+				return "panic process-died"
+			}
+		}
+		// not confirmed: an accident of the test client; serve the line again
 	}
 	return fmt.Sprintf("worker-died on %q", line)
 }
